@@ -151,3 +151,37 @@ Example C16_code_defaults_of_empty_info :
   = mkVM 1000 500 700 800 (-200) 200 1000 200 1000 (-200) 0.
 Proof. exact code_defaults_of_empty_info. Qed.
 Print Assumptions C16_code_defaults_of_empty_info.
+
+(* ---- explicit values win in the NAME TABLE of a variable font whose designspace overrides font info: the merge of the
+   override's records into the default source's table (InfoCompiler.setupTable_name, TRANSLATED from /repo's current source into
+   Generated/NameMergeGen.v and proved equal to the model of Info/NameMerge.v), for all record lists ---- *)
+From U2F Require Import Info.NameMerge Info.NameMergeProofs Generated.NameMergeGen Info.NameMergeTied.
+
+Theorem C16_translated_name_merge_is_the_model : forall temp orig, tr_name_merge temp orig = name_merge temp orig.
+Proof. exact translated_name_merge_is_the_model. Qed.
+Print Assumptions C16_translated_name_merge_is_the_model.
+
+Theorem C16_code_overridden_name_record_wins : forall temp orig k v,
+  kfind k (kdict temp) = Some v -> kfind k (tr_name_merge temp orig) = Some v.
+Proof. exact code_override_wins. Qed.
+Print Assumptions C16_code_overridden_name_record_wins.
+
+Theorem C16_code_no_stale_record_of_an_overridden_name : forall temp orig k v,
+  rewritten temp k = true -> kfind k (tr_name_merge temp orig) = Some v -> kfind k (kdict temp) = Some v.
+Proof. exact code_no_stale_record_of_a_rewritten_name. Qed.
+Print Assumptions C16_code_no_stale_record_of_an_overridden_name.
+
+Theorem C16_code_predefined_names_are_the_overrides : forall temp orig k,
+  predefined_windows_english k = true -> kfind k (tr_name_merge temp orig) = kfind k (kdict temp).
+Proof. exact code_predefined_names_are_the_overrides. Qed.
+Print Assumptions C16_code_predefined_names_are_the_overrides.
+
+Theorem C16_code_other_name_records_untouched : forall temp orig k,
+  rewritten temp k = false -> predefined_windows_english k = false ->
+  kfind k (tr_name_merge temp orig) = kfind k (kdict orig).
+Proof. exact code_other_records_untouched. Qed.
+Print Assumptions C16_code_other_name_records_untouched.
+
+Theorem C16_code_merged_keys_distinct : forall temp orig, NoDup (map fst (tr_name_merge temp orig)).
+Proof. exact code_merge_keys_distinct. Qed.
+Print Assumptions C16_code_merged_keys_distinct.
